@@ -250,7 +250,8 @@ def main(modname, argv=None):
     wall = a.wall or budget['wall']
     deadline = t0 + wall
     base = a.seed * 1_000_003 + (0 if a.tier == 'quick' else 500_000_000)
-    seeds = [base + i for i in range(n_runs)]
+    skip = int(os.environ.get('VERIF_SKIP', '0'))       # soaks: start further down the same seed sequence (default 0: the registered commands)
+    seeds = [base + skip + i for i in range(n_runs)]
     print(f'VERIF_SEED={a.seed} property={chk.PROP} tier={a.tier} runs<={n_runs} wall<={wall}s jobs={a.jobs}',
           flush=True)
     chunk = max(1, min(budget.get('chunk', 8), n_runs // (a.jobs * 4) or 1))
